@@ -531,7 +531,8 @@ def _parse_config_params(toml):
         _params[key] = _params.get(key, default)
 
     # Make sure volume fractions sum to 1.
-    if np.abs(np.sum(_params["phase_fractions"]) - 1.0) > 1e-16:
+    # (written as a negated `<=` so that NaN fractions are rejected as well)
+    if not np.abs(np.sum(_params["phase_fractions"]) - 1.0) <= 1e-16:
         raise _err.ConfigError(
             "Volume fractions of mineral phases must sum to 1."
             + f" You've provided phase_fractions = {_params['phase_fractions']}."
